@@ -37,6 +37,11 @@ def cases(seed, tier):
     if rng.random() < 0.5:
         specs["d1"]["parent"] = "stack"
         specs["d2"]["parent"] = "stack"
+        r_ = rng.random()
+        if r_ < 0.3:
+            specs["stack"]["stage_lists"] = "self"  # stage() answers [stack] only: the components are not listed
+        elif r_ < 0.45:
+            specs["stack"]["stage_status"] = True  # stage() / unstage() answer with a Status object
     specs["sigS"] = {"kind": "signal", "initial": 0}
     pg = gen.PlanGen(rng, specs)
     pg.dets = [d for d in pg.dets if d != "stack"]
@@ -69,12 +74,13 @@ def cases(seed, tier):
         "wrappers": ["run"] + order,
         "script": [{"do": "call", "plan": body, "main": True}],
     }
+    # (the fault-free case goes to the oracle first: if it does not even complete, the oracle says so)
+    yield case
     dry = generic.run_case(case)
     dv = View(dry)
     if dry.aborted or dv.calls[0].outcome != "return":
         raise RuntimeError(f"generator contract broken: C23 base did not complete: {dv.calls[0].end.d if dv.calls else None}")
     n = dv.calls[0].end.d["steps"]
-    yield case
     K = 12 if tier == "quick" else 24
     for j in range(K):
         c = grammar.schedule(rng, case, dv, n)
@@ -159,6 +165,10 @@ def check(res):
     evs = inv.events
     last = inv.calls[-1]
     if last.end is None or last.state != "idle":
+        return out
+    if not any(e.kind in ("inject_begin",) or (e.kind == "dev" and e.d.get("fault")) for e in evs) and last.outcome == "raise" and not res.case["script"][0].get("decisions"):
+        # nothing was injected: a wrapped plan that is legal on its own completes under the wrappers too
+        out.append(V("fault-free-plan-failed", f"no fault, no request, yet the call ended with {last.exc}: {last.end.d['text'][:160]}", exc=last.exc))
         return out
     halted = any(c.accepted("halt") for c in inv.calls) or any(c.api == "halt" for c in inv.calls)
     if halted:
@@ -257,6 +267,21 @@ def check(res):
     for m in msgs:
         if m.d["cmd"] == "unstage" and m.d["obj"] not in unstaged:
             unstaged.append(m.d["obj"])
+    if "lazy" in res.case["wrappers"]:
+        # ... and a device is staged once: no second 'stage' message while it is staged
+        level = {}
+        seen_mids = set()
+        for m in msgs:
+            if m.d["mid"] in seen_mids:
+                continue
+            seen_mids.add(m.d["mid"])
+            if m.d["cmd"] == "stage":
+                if level.get(m.d["obj"], 0) > 0:
+                    out.append(V("staged-again-while-staged", f"{m.d['obj']}: a second 'stage' message while it is still staged", dev=m.d["obj"]))
+                    break
+                level[m.d["obj"]] = level.get(m.d["obj"], 0) + 1
+            elif m.d["cmd"] == "unstage":
+                level[m.d["obj"]] = max(0, level.get(m.d["obj"], 0) - 1)
     if "stage" in res.case["wrappers"] and "lazy" not in res.case["wrappers"]:
         # 'one unstage for every stage': a device is not unstaged more often than it was staged (two clean-ups, each
         # correct alone, undoing the same staging)
